@@ -16,6 +16,7 @@ structure Sess where
   seqs : Array (Array Int)
   pos : Array Nat
   inited : Bool := false
+  storage : Nat := 0      -- 0 array, 1 slot (refilled in place), 2 fresh (consumed keys freed)
 
 abbrev St := Option Sess
 
@@ -91,7 +92,12 @@ def doReplace (s : Sess) : Option (Sess × String) := do
   let w := W.source
   let p ← s.pos[w]?
   let s1 := { s with pos := s.pos.setIfInBounds w (p + 1) }
-  let t ← s1.t.deleteMinInsert s1.lt 0 (curKey s1 w)
+  -- pointer classes: the memory losers_[0].keyp points to now holds the next key (slot), the
+  -- exhausted-slot filler, or nothing valid at all (fresh: modelled by a poison value)
+  let t0 := if s1.t.v.copy || s1.storage = 0 then s1.t
+    else if s1.storage = 1 then s1.t.clobberWinnerKey ((curKey s1 w).getD 424242)
+    else s1.t.clobberWinnerKey (-777777)
+  let t ← t0.deleteMinInsert s1.lt 0 (curKey s1 w)
   let s2 := { s1 with t := t }
   let out ← stateStr s2
   pure (s2, out)
@@ -102,6 +108,16 @@ def step' (st : St) (ts : List String) : St × String :=
     match doNew rest with
     | some s => (some s, "ok")
     | none => (none, "bad-op")
+  | ["storage", m] =>
+    match st with
+    | some s =>
+      if s.inited then (st, "bad-op") else
+      match m with
+      | "array" => (some { s with storage := 0 }, "ok")
+      | "slot" => (some { s with storage := 1 }, "ok")
+      | "fresh" => (some { s with storage := 2 }, "ok")
+      | _ => (st, "bad-op")
+    | none => (st, "bad-op")
   | "init" :: rest =>
     match st with
     | some s =>
